@@ -103,6 +103,9 @@ def _cases(draw, tier):
     # a directory at another depth (a relative link computed lexically would dangle there)
     case["chform"] = draw(st.sampled_from(["plain", "plain", "slash", "dot"]))
     case["destlink"] = draw(st.integers(0, 3)) == 0
+    # refreshing a destination that an earlier `drf ln` (hard or symbolic links) made: the copy may be refused (source and
+    # destination are the same file), but "cp leaves the source unchanged" holds whatever happens
+    case["prelink"] = draw(st.sampled_from([None, None, None, None, "ln", "lnsym", "self", "same"])) if case["cmd"] == "cp" and not case["xdev"] else None
     return case
 
 
@@ -264,6 +267,34 @@ def _run_case(case):
         if case.get("arrive") and expected:
             shutil.copy2, shutil.move, os.link, os.symlink = wrap("copy2"), wrap("move"), wrap("link"), wrap("symlink")
             res.cls("files-arrive-during-command")
+        if case.get("prelink"):
+            res.cls("copy-onto-links-to-the-source")
+            pre = argv_for(dict(case, cmd=case["prelink"]), src_cmd, argv[2]) if case["prelink"] in ("ln", "lnsym") else None
+            if case["prelink"] == "same":
+                argv[2] = argv[1]  # drf cp SRC SRC
+            elif case["prelink"] == "self":
+                # the destination directory is a symbolic link to the source directory
+                if os.path.lexists(dest):
+                    return res
+                os.symlink(src, dest)
+            refused = None
+            with contextlib.redirect_stdout(io.StringIO()), contextlib.redirect_stderr(io.StringIO()):
+                try:
+                    if pre:
+                        drf_command.main(pre)
+                    try:
+                        drf_command.main(argv)
+                    except (Exception, SystemExit) as e:
+                        refused = e  # e.g. shutil.SameFileError: acceptable - damage to the source is not
+                finally:
+                    shutil.copy2, shutil.move, os.link, os.symlink = real_fns["copy2"], real_fns["move"], real_fns["link"], real_fns["symlink"]
+            after = treeutil.snapshot(top)
+            if arrivals:
+                after = {k: v for k, v in after.items() if k not in arrivals and not (v[0] == "d" and k == os.path.dirname(next(iter(arrivals))))}
+            if after != before:
+                res.fail("source-changed:cp-onto-links", "%s (cp %s)" % (treeutil.diff(before, after), "was refused: %r" % (refused,) if refused else "ran"))
+            res.evaluations += len(expected)
+            return res
         try:
             with contextlib.redirect_stdout(io.StringIO()), contextlib.redirect_stderr(io.StringIO()):
                 try:
@@ -376,7 +407,7 @@ def run_case(case):
 def shrink_candidates(case):
     for key, val in (("chs", None), ("only", False), ("reverse", False), ("start", None), ("end", None), ("drfprops", None),
                      ("dmdprops", None), ("tfmt", "iso"), ("drf", True), ("dmd", True), ("xdev", False), ("symlink", False), ("arrive", None),
-                     ("chform", "plain"), ("destlink", False)):
+                     ("chform", "plain"), ("destlink", False), ("prelink", None)):
         if key not in case:
             continue
         if case[key] != val:
